@@ -6,6 +6,8 @@
       (a BaseException, so none of the engine's `except Exception` paths run) at the armed one;
     - `execute()` calls a per-thread gate before a statement matching the armed predicate, which
       lets the harness park a worker between two statements of one engine call;
+    - every new connection is passed to the `CTL.on_connect` hooks (e.g. to register SQL functions that the
+      harness's triggers call, on connections the engine opens on its own threads);
     - `commit()` calls the per-thread `CTL.commit_gates` entry (if any) before a commit that really ends a
       transaction, so a worker can also be parked while it holds the write lock, before its COMMIT.
 * `Worker` is a dedicated thread with a mailbox: `worker.call(fn)` runs `fn` on that thread (the
@@ -35,6 +37,7 @@ class Ctl:
         self.gates: dict[int, Callable[[str, Any], bool]] = {}   # thread ident -> predicate(sql, params)
         self.commit_gates: dict[int, Callable[[], Any]] = {}     # thread ident -> called before a commit that really ends a transaction
         self.parked: dict[int, dict] = {}
+        self.on_connect: list[Callable[[sqlite3.Connection, tuple], Any]] = []   # called with every connection the engine opens
 
     def arm_crash(self, k: int | None) -> None:
         self.crash_at = k
@@ -76,7 +79,10 @@ class _Shim:
 
     def connect(self, *a, **k):
         k.setdefault("factory", IConn)
-        return sqlite3.connect(*a, **k)
+        conn = sqlite3.connect(*a, **k)
+        for hook in CTL.on_connect:
+            hook(conn, a)
+        return conn
 
 
 def install() -> None:
